@@ -13,7 +13,7 @@ Fixpoint targets (t : label) (s : stmt) : bool :=
   | SExpr _ | SReturn _ | SThrow _ => false
   | SBlock l => tl l
   | SIf _ s1 s2 => targets t s1 || match s2 with Some s2 => targets t s2 | None => false end
-  | SWhile _ b | SDoWhile b _ | SFor _ _ _ b => tl b
+  | SWhile _ b | SDoWhile b _ | SFor _ _ _ b | SForIn _ _ b => tl b
   | SBreak t' | SContinue t' => Nat.eqb t' t
   | SLabelled _ s => targets t s
   | STry b c f => tl b || match c with Some c => tl c | None => false end
@@ -35,6 +35,8 @@ Lemma targets_dowhile t e l : targets t (SDoWhile l e) = targets_list t l.
 Proof. simpl. induction l as [|x xs IH]; simpl; [reflexivity|]. now rewrite IH. Qed.
 Lemma targets_for t i e u l : targets t (SFor i e u l) = targets_list t l.
 Proof. simpl. induction l as [|x xs IH]; simpl; [reflexivity|]. now rewrite IH. Qed.
+Lemma targets_forin t x e l : targets t (SForIn x e l) = targets_list t l.
+Proof. simpl. induction l as [|y ys IH]; simpl; [reflexivity|]. now rewrite IH. Qed.
 Lemma targets_try t b c f : targets t (STry b c f) =
   targets_list t b || targets_olist t c || targets_olist t f.
 Proof.
@@ -62,7 +64,7 @@ Qed.
 (* body of "t: s" is handled correctly by otto *)
 Fixpoint ok_body (t : label) (s : stmt) : bool :=
   match s with
-  | SBlock _ | SWhile _ _ | SDoWhile _ _ | SFor _ _ _ _ | SSwitch _ _ => true
+  | SBlock _ | SWhile _ _ | SDoWhile _ _ | SFor _ _ _ _ | SSwitch _ _ | SForIn _ _ _ => true
   | SLabelled _ s' => ok_body t s'
   | STry _ c f => negb (targets_olist t c) && negb (targets_olist t f)
   | _ => negb (targets t s)
@@ -75,7 +77,7 @@ Fixpoint wf (s : stmt) : bool :=
   | SExpr _ | SReturn _ | SThrow _ | SBreak _ | SContinue _ => true
   | SBlock l => wl l
   | SIf _ s1 s2 => wf s1 && match s2 with Some s2 => wf s2 | None => true end
-  | SWhile _ b | SDoWhile b _ | SFor _ _ _ b => wl b
+  | SWhile _ b | SDoWhile b _ | SFor _ _ _ b | SForIn _ _ b => wl b
   | SLabelled t s => negb (Nat.eqb t 0) && ok_body t s && wf s
   | STry b c f => wl b && match c with Some c => wl c | None => true end
                        && match f with Some f => wl f | None => true end
@@ -96,6 +98,8 @@ Lemma wf_dowhile e l : wf (SDoWhile l e) = wf_list l.
 Proof. simpl. induction l as [|x xs IH]; simpl; [reflexivity|]. now rewrite IH. Qed.
 Lemma wf_for i e u l : wf (SFor i e u l) = wf_list l.
 Proof. simpl. induction l as [|x xs IH]; simpl; [reflexivity|]. now rewrite IH. Qed.
+Lemma wf_forin x e l : wf (SForIn x e l) = wf_list l.
+Proof. simpl. induction l as [|y ys IH]; simpl; [reflexivity|]. now rewrite IH. Qed.
 Lemma wf_try b c f : wf (STry b c f) = wf_list b && wf_olist c && wf_olist f.
 Proof.
   assert (H : forall l, (fix wl (l : list stmt) : bool :=
@@ -121,5 +125,5 @@ End Wf.
 Arguments targets {expr}. Arguments targets_list {expr}. Arguments targets_olist {expr}.
 Arguments ok_body {expr}. Arguments wf {expr}. Arguments wf_list {expr}. Arguments wf_olist {expr}.
 Arguments targets_block {expr}. Arguments targets_while {expr}. Arguments targets_dowhile {expr}. Arguments targets_for {expr}. Arguments wf_dowhile {expr}. Arguments wf_for {expr}. Arguments targets_try {expr}.
-Arguments targets_switch {expr}. Arguments targets_list_skipn {expr}. Arguments wf_switch {expr}. Arguments wf_list_skipn {expr}.
+Arguments targets_forin {expr}. Arguments wf_forin {expr}. Arguments targets_switch {expr}. Arguments targets_list_skipn {expr}. Arguments wf_switch {expr}. Arguments wf_list_skipn {expr}.
 Arguments wf_block {expr}. Arguments wf_while {expr}. Arguments wf_try {expr}.
